@@ -457,6 +457,18 @@ TASK_STATE_MACHINE_DATA = {
 }
 
 
+# A with items task that is still requested, scheduled or delayed reacts to the workflow
+# pause and cancel events in the same way as a with items task that is running.
+for _status in [statuses.REQUESTED, statuses.SCHEDULED, statuses.DELAYED]:
+    TASK_STATE_MACHINE_DATA[_status].update(
+        {
+            k: v
+            for k, v in TASK_STATE_MACHINE_DATA[statuses.RUNNING].items()
+            if k.startswith("workflow_")
+        }
+    )
+
+
 class TaskStateMachine(object):
     @classmethod
     def is_transition_valid(cls, old_status, new_status):
